@@ -349,4 +349,19 @@ def pullHS (O U V : P3) (h : HS) : HP :=
   ⟨h.a * U.x + h.b * U.y + h.c * U.z, h.a * V.x + h.b * V.y + h.c * V.z,
    h.d - (h.a * O.x + h.b * O.y + h.c * O.z)⟩
 
+/-! convex combinations (V-representation) -/
+
+/-- `Σ wᵢ vᵢ` (lists are zipped) -/
+def comb : List Rat → List Pt → Pt
+  | w :: ws, v :: vs => ⟨w * v.x + (comb ws vs).x, w * v.y + (comb ws vs).y⟩
+  | _, _ => ⟨0, 0⟩
+
+def wsum : List Rat → List Pt → Rat
+  | w :: ws, _ :: vs => w + wsum ws vs
+  | _, _ => 0
+
+/-- `X` is a convex combination of the vertices `vs` -/
+def InHull (vs : List Pt) (X : Pt) : Prop :=
+  ∃ ws : List Rat, (∀ w ∈ ws, 0 ≤ w) ∧ wsum ws vs = 1 ∧ X = comb ws vs
+
 end PorepyVerif.C44
